@@ -28,7 +28,14 @@ pub fn parse_json_unbounded(txt: &str) -> Result<Value, serde_json::Error> {
     de.end()?;
     Ok(v)
 }
-const WATCHDOG_SECS: u64 = 60;
+/// A run that takes longer than this (wall clock) counts as hung and its worker is killed:
+/// 60 s in the quick tier, 240 s in the thorough tier (whose C14 runs issue ~10^5 salts per world
+/// and may share the machine with other jobs).
+static WATCHDOG: AtomicU64 = AtomicU64::new(60);
+#[allow(non_snake_case)]
+fn WATCHDOG_SECS() -> u64 {
+    WATCHDOG.load(Ordering::Relaxed)
+}
 
 pub fn base_seed() -> u64 {
     std::env::var("VERIF_SEED").ok().and_then(|s| s.trim().parse::<u64>().ok()).unwrap_or(DEFAULT_SEED)
@@ -177,7 +184,7 @@ fn exec_with_watchdog(w: Option<Worker>, scn: &Value) -> (Option<Worker>, Reply)
     let t = std::thread::spawn(move || {
         let start = Instant::now();
         while !d2.load(Ordering::SeqCst) {
-            if start.elapsed() > Duration::from_secs(WATCHDOG_SECS) {
+            if start.elapsed() > Duration::from_secs(WATCHDOG_SECS()) {
                 k2.store(true, Ordering::SeqCst);
                 unsafe {
                     libc::kill(pid as i32, libc::SIGKILL);
@@ -194,7 +201,7 @@ fn exec_with_watchdog(w: Option<Worker>, scn: &Value) -> (Option<Worker>, Reply)
         Reply::Report(_) => (Some(w), r),
         Reply::Died(s) => {
             if killed.load(Ordering::SeqCst) {
-                (None, Reply::Died(format!("hang (> {} s wall, killed)", WATCHDOG_SECS)))
+                (None, Reply::Died(format!("hang (> {} s wall, killed)", WATCHDOG_SECS())))
             } else {
                 (None, Reply::Died(s))
             }
@@ -407,7 +414,7 @@ fn run_batch(check: &str, tier: &str, base: u64, first: u64, n: u64, workers: us
                 {
                     let b = busy.lock().unwrap();
                     for (pid, since) in b.iter().flatten() {
-                        if since.elapsed() > Duration::from_secs(WATCHDOG_SECS) {
+                        if since.elapsed() > Duration::from_secs(WATCHDOG_SECS()) {
                             hung.lock().unwrap().insert(*pid);
                             unsafe {
                                 libc::kill(*pid as i32, libc::SIGKILL);
@@ -429,7 +436,7 @@ fn run_batch(check: &str, tier: &str, base: u64, first: u64, n: u64, workers: us
                 pool.agg.absorb(idx, *r)
             }
             Reply::Died(how) => {
-                let how = if hung.lock().unwrap().is_empty() { how } else { format!("hang (> {} s wall, killed) / {}", WATCHDOG_SECS, how) };
+                let how = if hung.lock().unwrap().is_empty() { how } else { format!("hang (> {} s wall, killed) / {}", WATCHDOG_SECS(), how) };
                 pool.agg.crashes.push((idx, run_seed(base, check, idx), how));
             }
             Reply::Fatal(e) => {
@@ -680,6 +687,7 @@ pub fn check_main(args: &[String]) -> i32 {
         eprintln!("unknown check {}", check);
         return 2;
     };
+    WATCHDOG.store(if tier == "thorough" { 240 } else { 60 }, Ordering::Relaxed);
     let alt = alt_leg();
     if alt && (!cfg!(feature = "mock") || !ALT_LEG_CHECKS.contains(&check.as_str())) {
         println!("HARNESS-ERROR: the alternate build leg exists for {:?} and needs the sdsim-mock binary", ALT_LEG_CHECKS);
